@@ -410,7 +410,34 @@ def harmonic_at_infinity_stream(ctx, n):
             ctx.disagree("C11:harmonic:" + mode, desc, exp.tolist(), r[1:3] if r[0] != "ok" else np.asarray(r[1].array).tolist(), replay=[desc])
 
 
+def mixed_pencils_stream(ctx, n):
+    """LineCollections holding several pencils of the plane at once: some vertices on the y-axis or at the origin (where a line's base
+    point is the vertex itself), some generic — the cross ratio at every position is the closed form of its own parameters"""
+    import geometer as g
+    rng = ctx.rng
+    for k in range(n):
+        m = rng.randint(2, 4)
+        verts, exp, cols = [], [], [[], [], [], []]
+        for i in range(m):
+            special = (i % 2 == 0) if k % 2 == 0 else (rng.random() < 0.5)
+            v = rng.choice([(0.0, float(rng.randint(-3, 3))), (0.0, 0.0)]) if special else (float(rng.randint(1, 4)), float(rng.randint(-3, 3)))
+            verts.append(v)
+            # four lines through v with slopes t_j: direction (1, t_j); cross ratio of the slopes
+            ts = rng.sample([-2.0, -1.0, -0.5, 0.0, 0.5, 1.0, 2.0, 3.0], 4)
+            exp.append(((ts[0] - ts[2]) * (ts[1] - ts[3])) / ((ts[0] - ts[3]) * (ts[1] - ts[2])))
+            for j in range(4):
+                cols[j].append(np.cross(np.array([v[0], v[1], 1.0]), np.array([v[0] + 1.0, v[1] + ts[j], 1.0])))
+        LC = [g.LineCollection(np.array(c)) for c in cols]
+        desc = f"cross ratio of four LineCollections: pencils with vertices {verts}"
+        ctx.case(desc)
+        ctx.count("cr:mixed-pencils")
+        r = call_impl(lambda: np.asarray(g.crossratio(*LC), dtype=complex))
+        if r[0] != "ok" or r[1].shape != (m,) or not np.allclose(r[1], np.array(exp), rtol=1e-9, atol=1e-12):
+            ctx.disagree("C11:crossratio:mixed-pencils", desc, exp, r[1:3] if r[0] != "ok" else r[1].tolist(), replay=[desc])
+
+
 def correspondence(ctx):
+    mixed_pencils_stream(ctx, ctx.budget(30, 300))
     harmonic_at_infinity_stream(ctx, ctx.budget(40, 400))
     zoom_invariance(ctx, ctx.budget(30, 300))
     coincident_positions(ctx, ctx.budget(40, 400))
